@@ -42,7 +42,10 @@ class MetricActionContext(ActionContext):
             labels, value = self._process_metric(metric)
             for processor in self.trigger_context.config.metric_processors:
                 try:
-                    getattr(processor, self._convert_type(metric.type))(metric.name, labels, metric.namespace or "deep",
+                    # each processor gets its own labels: one that adapts them in place must not change what the
+                    # next one is told
+                    getattr(processor, self._convert_type(metric.type))(metric.name, dict(labels),
+                                                                        metric.namespace or "deep",
                                                                         metric.help, metric.unit, value)
                 except Exception:
                     # one metric processor failing must not cost the other processors, or the other metrics
